@@ -253,6 +253,24 @@ def coq_case(case):
     return coq(((case["stderr"], ch), (list(case["data"]), rounds)))
 
 
+def make_arg(case):
+    """The object handed to sendall: the data as bytes / bytearray / memoryview, or the text as str."""
+    a = case.get("arg") or "bytes"
+    data = bytes(case["data"])
+    if a == "bytearray":
+        return bytearray(data)
+    if a == "memoryview":
+        return memoryview(data)
+    if a == "str":
+        return case["text"]
+    return data
+
+
+def in_model(case):
+    """the byte-level model applies when lengths are counted in bytes: everything but non-ASCII str"""
+    return case.get("arg") != "str" or len(case["text"]) == len(case["data"])
+
+
 def run_sendall_scripted(case):
     """Drive the real sendall / sendall_stderr on one scripted case.  Returns a dict of observables."""
     import paramiko.channel as pc
@@ -274,11 +292,21 @@ def run_sendall_scripted(case):
                 apply_event(chan, ev)
 
     tr.on_data = on_data
-    fn = chan.sendall_stderr if case["stderr"] else chan.sendall
+    arg = make_arg(case)
+    fobj = None
+    if case.get("entry") == "file":
+        # the alternative entry point: ChannelFile / ChannelStderrFile .write + .flush -> sendall(_stderr)
+        fobj = chan.makefile_stderr("wb") if case["stderr"] else chan.makefile("wb")
+
+        def fn(a):
+            fobj.write(a)
+            return fobj.flush()
+    else:
+        fn = chan.sendall_stderr if case["stderr"] else chan.sendall
     saved = pc.time
     pc.time = clock
     try:
-        kind, val, th = watchdog(lambda: fn(data), WATCHDOG)
+        kind, val, th = watchdog(lambda: fn(arg), WATCHDOG)
         if kind == "hang":
             # stop the spinning thread: a closed channel makes _send raise
             chan.closed = True
@@ -286,7 +314,10 @@ def run_sendall_scripted(case):
     finally:
         pc.time = saved
         tr.on_data = None
-    msgs = tr.data[before:]
+    msgs = list(tr.data[before:])
+    if fobj is not None:
+        import io
+        fobj._wbuffer = io.BytesIO()      # cleanup only: nothing left for the file's __del__ to flush
     return {"code": classify(kind, val), "exc": None if kind != "exc" else type(val).__name__,
             "closed": bool(chan.closed), "eof": bool(chan.eof_sent), "window": chan.out_window_size,
             "msgs": msgs, "pre_state": pre_state, "bad_header": tr.bad_header, "chan": chan,
@@ -365,6 +396,22 @@ def gen_case(rng, flavour):
     maxpkt = 64 + rng.choice([1, 2, 3, 5, 8, 20, 4032])
     window = rng.choice([0, 0, 1, 2, 3, 5, 10, n, max(0, n - 1), 1000])
     timeout = rng.choice([None, None, 0.0, 0.0, 1.0, 3.0, 10.0])
+    if flavour == "typed":
+        # glue: the argument types sendall accepts (bytes-like objects and text) and the file-object entry points;
+        # small windows / packet limits so that the data needs several chunks
+        base = gen_case(rng, rng.choice(["plain", "mixed", "mixed", "closing"]))
+        kind = rng.choice(["bytearray", "memoryview", "str", "str", "str", "bytes"])
+        base["arg"] = kind
+        base["entry"] = rng.choice(["sendall", "sendall", "file"])
+        if kind == "str":
+            alphabet = ["a", "Z", "0", "\n", "\u00e9", "\u00a7", "\u03bb", "\u20ac", "\u4e2d", "\U0001f600"]
+            if rng.random() < 0.25:
+                alphabet = alphabet[:4]          # pure ASCII text
+            text = "".join(rng.choice(alphabet) for _ in range(rng.choice([1, 2, 3, 5, 8, 13, rng.randrange(1, 24)])))
+            base["text"] = text
+            base["data"] = list(text.encode("utf-8"))
+            base["window"] = rng.choice([1, 2, 3, 5, 1000, base["window"]])
+        return base
     if flavour == "stall":
         # timed mode, the window is (or soon gets) closed and the sender is woken repeatedly without progress:
         # zero-byte window adjusts, spurious wake-ups, peer EOF; the slept time adds up past the timeout
@@ -400,7 +447,8 @@ def gen_case(rng, flavour):
 
 
 def case_key(case):
-    return repr((case["data"], case["window"], case["maxpkt"], case["timeout"], case["stderr"], case["rounds"]))
+    return repr((case["data"], case["window"], case["maxpkt"], case["timeout"], case["stderr"], case["rounds"],
+                 case.get("arg"), case.get("entry")))
 
 
 def run_one(ctx, case, kind):
@@ -595,7 +643,7 @@ def run(ctx):
 
     # ---- 1. scripted histories: sendall / sendall_stderr --------------------------------------
     cases, hangs = [], 0
-    plan = [("plain", 100), ("mixed", 230), ("closing", 230), ("stall", 60), ("empty", 10)]
+    plan = [("plain", 100), ("mixed", 200), ("closing", 200), ("stall", 60), ("typed", 120), ("empty", 10)]
     for flavour, n in plan:
         for _ in range(n * scale):
             case = gen_case(rng, flavour)
@@ -608,6 +656,7 @@ def run(ctx):
         if hangs >= 3:
             ctx.notes.append("stopped generating after 3 hangs (each costs the watchdog time)")
             break
+    cases = [(c, exp) for c, exp in cases if in_model(c)]      # non-ASCII text: oracle only (lengths in characters)
     bad = safe_mm(ctx, "run_sendall", "((bool * chan) * (list Z * list round))",
                                [(coq_case(c), exp) for c, exp in cases])
     for i in bad[:3]:
@@ -733,6 +782,6 @@ def replay(ctx, rep):
     obs = run_one(ctx, case, "replay")
     ctx.count(("replay2", case_key(case)))
     bad = safe_mm(ctx, "run_sendall", "((bool * chan) * (list Z * list round))",
-                               [(coq_case(case), canon(obs, case["data"]))])
+                  [(coq_case(case), canon(obs, case["data"]))]) if in_model(case) else []
     if bad:
         ctx.disagree("sendall differs from the model", case=case, impl=canon(obs, case["data"]))
